@@ -25,6 +25,7 @@ static struct {
     secp256k1_musig_session default_session;
     unsigned char msg[32];
     unsigned long fresh_ctr;
+    int dup;          /* number of successful nonce generations that returned secret-nonce bytes already handed out before */
     int nobj, nbuf;
 } MN;
 
@@ -85,10 +86,13 @@ static void mn_projection(jout *out) {
         sprintf(key, "key%d", o); jo_int(out, key, bound);
     }
     for (b = 0; b < MN.nbuf; b++) { sprintf(key, "rz%d", b); jo_int(out, key, secp256k1_is_zero_array(MN.buf[b], 32)); }
+    jo_int(out, "dup", MN.dup);
 }
 static int mn_is(const jv *in, const char *cls) { return jv_is(jv_get(in, "cls"), cls); }
 static void mn_register(int o, int key, const secp256k1_musig_pubnonce *pn) {
+    int j;
     if (MN.nids >= MN_IDS) { fprintf(stderr, "vh: too many nonces\n"); exit(3); }
+    for (j = 0; j < MN.nids; j++) if (!memcmp(MN.kbytes[j], &MN.obj[o].data[4], 64)) MN.dup++;
     memcpy(MN.kbytes[MN.nids], &MN.obj[o].data[4], 64);
     MN.idkey[MN.nids] = key; MN.pubnonce[MN.nids] = *pn;
     mn_make_session(&MN.session[MN.nids], pn, key);
@@ -131,7 +135,7 @@ static void op_MnNonceGenCounter(const jv *in, jout *out) {
     ret = secp256k1_musig_nonce_gen_counter(CTX,
         mn_is(in, "secnonce_null") ? NULL : &MN.obj[o],
         mn_is(in, "pubnonce_null") ? NULL : &pn,
-        (uint64_t)MN.fresh_ctr,
+        ((uint64_t)MN.fresh_ctr << 32) | 5u,      /* non-repeating counters that differ only ABOVE bit 31 */
         mn_is(in, "keypair_null") ? NULL : &MN.kp[k],
         MN.msg,
         mn_is(in, "cache_bad") ? &badcache : &MN.cache[k],
